@@ -578,8 +578,14 @@ def cubic_spline(  # pylint: disable=dangerous-default-value  # always replaced 
         if constraints is not None:
             if centering_constraint:
                 # Now we can compute centering constraints
+                # The columns are to have zero mean over the rows of the
+                # training data as they will be returned: rows zeroed by the
+                # extrapolation mode count as zeros, null rows do not count.
+                free_mat = _get_free_cubic_spline_matrix(x, all_knots, cyclic=cyclic)
+                if extrapolation is SplineExtrapolation.ZERO:
+                    free_mat[below_lower | above_upper] = 0.0
                 constraints_arr = _get_centering_constraint_from_matrix(
-                    _get_free_cubic_spline_matrix(x, all_knots, cyclic=cyclic)
+                    free_mat[~numpy.isnan(free_mat).any(axis=1)]
                 )
             df_before_constraints = all_knots.size
             if cyclic:
